@@ -71,8 +71,16 @@ def generate(seed, tier):
         ops.append({'op': 'add', 'parent': p, 'path': rng.choice(['validated', 'novalidation']) if not (shape == 'deep' and i < deep_m) else 'novalidation',
                     'dt': rng.randrange(1, 1000), 'miner': rng.randrange(12)})
     # every state is installed in a node's chain manager and read back from there (what the node reports)
+    served = rng.random() < 0.3
+    if served and base != 'hlow' and shape != 'deep' and rng.random() < 0.5:
+        # some blocks are found by the node's own miner: the candidate is requested at one moment and the winning hash comes
+        # back later, after other blocks have arrived (a found block is an arrival like any other: its parent is stored)
+        for _ in range(rng.randint(1, 3)):
+            i = rng.randrange(len(ops) + 1)
+            ops.insert(i, {'op': 'mine_request'})
+            ops.insert(rng.randrange(i + 1, len(ops) + 1), {'op': 'mine_output'})
     # hboundary: the root is 1-4 blocks below a retarget boundary, so rival blocks at and above it state different targets
-    return {'config': {'mode': 'tree', 'base': base, 'shape': shape, 'served': rng.random() < 0.3,
+    return {'config': {'mode': 'tree', 'base': base, 'shape': shape, 'served': served,
                        'k': rng.randint(1, 4), 'elapsed': rng.randint(600_000, 1_150_000)}, 'ops': ops}
 
 
@@ -167,23 +175,96 @@ def _run_tree(script, res, trace):
     cm = None
     if script['config'].get('served'):
         from skepticoin.networking.local_peer import LocalPeer
-        lp = LocalPeer()
+        from types import SimpleNamespace
+        # (the store is not this property's subject: found blocks are handed to a stub)
+        lp = LocalPeer(disk_interface=SimpleNamespace(save_block=lambda b_: None, flush_blocks=lambda: None))
+        import skepticoin.mining as mining
+        saved_m = {n_: mining.__dict__.get(n_) for n_ in ('save_wallet', 'time')}
         try:
             cm = lp.chain_manager
             cm.set_coinstate(cs)
             res.bump('probe:state_served_by_chain_manager')
-            _run_ops(script, res, trace, cs, chain, stored, ops, base, cm)
+            miner = None
+            if any(o.get('op') in ('mine_request', 'mine_output') for o in ops):
+                from decimal import Decimal
+                from datetime import datetime
+                from skepticoin.wallet import Wallet
+                wk = [W.key(300 + i) for i in range(8)]
+                watcher = object.__new__(mining.MinerWatcher)
+                watcher.args = SimpleNamespace(quiet=True, n=1)
+                watcher.send_queues = [SimpleNamespace(put=lambda item: None)]
+                watcher.processes, watcher.hash_stats, watcher.mining_args, watcher.log_silencer = [], {}, {}, []
+                watcher.balance = watcher.start_balance = Decimal(0)
+                watcher.start_time = datetime.fromtimestamp(0)
+                watcher.wallet = Wallet({k_.pub: k_.priv for k_ in wk}, [k_.pub for k_ in wk], {})
+                watcher.coinstate = cs
+                watcher.network_thread = SimpleNamespace(local_peer=lp)
+                watcher.public_key = watcher.wallet.get_annotated_public_key('reserved for potentially mined block')
+                mining.save_wallet = lambda w_: None
+                miner = {'watcher': watcher, 'pending': False, 'clock': [0]}
+                mining.time = lambda: miner['clock'][0]
+            _run_ops(script, res, trace, cs, chain, stored, ops, base, cm, miner)
         finally:
+            for n_, v_ in saved_m.items():
+                if v_ is not None:
+                    setattr(mining, n_, v_)
             lp.selector.close()
         return
-    _run_ops(script, res, trace, cs, chain, stored, ops, base, cm)
+    _run_ops(script, res, trace, cs, chain, stored, [o for o in ops if o.get('op', 'add') == 'add'], base, cm)
 
 
-def _run_ops(script, res, trace, cs, chain, stored, ops, base, cm):
+def _run_ops(script, res, trace, cs, chain, stored, ops, base, cm, miner=None):
     import skepticoin.consensus as consensus
     from world import ledger as W
     from refmodel import rules
     for n, op in enumerate(ops):
+        if op.get('op') in ('mine_request', 'mine_output'):
+            if miner is None:
+                continue
+            watcher = miner['watcher']
+            head_rb = chain.blocks[cs.current_chain_hash]
+            miner['clock'][0] = max(b_.ts for b_ in chain.blocks.values()) + 5
+            if op['op'] == 'mine_request':
+                with env.quiet():
+                    watcher.handle_request_scrypt_input_message(0, n)
+                miner['pending'] = True
+                res.bump('candidates_requested')
+                continue
+            if not miner['pending']:
+                continue
+            miner['pending'] = False
+            summary = watcher.mining_args[0][0]
+            old_head = cs.current_chain_hash
+            try:
+                with env.quiet():
+                    watcher.handle_scrypt_output_message(0, consensus.construct_summary_hash(summary, summary.height))
+            except Exception as e:
+                res.violate(PROP, 'C04/arrival-raised', 'the node\'s own found-block handler raised %s for a candidate on a stored parent' % type(e).__name__)
+                return
+            cs = cm.coinstate
+            new = [b_ for h_, b_ in cs.block_by_hash.items() if h_ not in chain.blocks]
+            if not new:
+                res.bump('mined_hash_not_below_target')
+                # nothing arrived; everything stored before must still be there
+                if not _check_state(res, cs, chain, stored, full=True):
+                    return
+                continue
+            if len(new) != 1 or set(cs.block_by_hash.keys()) - {rules.block_id(new[0])} != set(chain.blocks.keys()):
+                res.violate(PROP, 'C04/stored-blocks-changed-by-found-block',
+                            'after the node found a block the stored blocks are not the previous ones plus that block (%d stored, %d before)' % (
+                                len(cs.block_by_hash), len(chain.blocks)))
+                return
+            blk = new[0]
+            chain.add(blk)
+            stored.append(rules.block_id(blk))
+            res.events += 1
+            res.bump('probe:block_found_by_the_nodes_miner')
+            if blk.header.summary.previous_block_hash != old_head:
+                res.bump('probe:found_block_on_a_parent_that_is_no_longer_the_head')
+            trace.add('mined', rules.block_id(blk), cs.current_chain_hash)
+            if not _check_state(res, cs, chain, stored, full=True):
+                return
+            continue
         rb = chain.blocks[stored[op['parent'] % len(stored)]]
         ts = rb.ts + max(1, op.get('dt', 1))
         view = W.view_at(cs, rb.id)
